@@ -1872,6 +1872,15 @@ def run(ctx):
             reported[key] = True
             ctx.violation("impl-violation", "%s: %s" % (suite, what), corr._short(case, 6000), signature=sig)
 
+    import time as _time
+    _t = [_time.time()]
+    stats["phase_s"] = {}
+
+    def phase(name):
+        now = _time.time()
+        stats["phase_s"][name] = round(now - _t[0], 1)
+        _t[0] = now
+
     patches = detect_patches()
     stats["tree_carries_fix"] = dict(patches)
 
@@ -1884,6 +1893,7 @@ def run(ctx):
         _, probs = run_ops(case)
         report(probs, case, "corpus")
 
+    phase("witnesses")
     # 1. model ties
     fr = corr.Suite(ctx, "frames", "exec_c05", frames_encode, frames_impl, None,
                     lambda c: c["frames"], lambda c, fs: dict(c, frames=fs),
@@ -1923,6 +1933,7 @@ def run(ctx):
         dg.run(dcases[i:i + 300])
         _CACHE.clear()
     stats["datagrams"] += len(dcases)
+    phase("close+dgram ties")
     fr.run(corr.load_corpus("C05", "frames"), "corpus")
     hd.run(corr.load_corpus("C05", "header"), "corpus")
     fcases = gen_frame_cases(rng, ctx.n(5000, 60000))
@@ -1930,6 +1941,7 @@ def run(ctx):
         fr.run(fcases[i:i + 1000])
         _CACHE.clear()
     stats["protected_packets"] += sum(1 + len(c["ops"]) for c in fcases)
+    phase("frames tie")
     tm.run(corr.load_corpus("C05", "tlsmsg"), "corpus")
     tcases = c05_tlsmsg.gen_cases(rng, ctx.n(2500, 40000))
     for i in range(0, len(tcases), 1500):
@@ -1940,6 +1952,7 @@ def run(ctx):
             tm.stats["outcome_histogram"][json.dumps(c05_tlsmsg.impl(c)[:2])] += 1
         c05_tlsmsg._OBS.clear()
     stats["tls_messages"] += len(tcases)
+    phase("tlsmsg tie")
     hcases = gen_header_cases(rng, ctx.n(600, 6000))
     hd.run(hcases)
     _CACHE.clear()
@@ -1948,21 +1961,27 @@ def run(ctx):
         for k in list(s.stats["outcome_histogram"]):
             pass
 
+    phase("header tie")
     # 2. (a) datagram fuzz in every coarse state
     run_datagram_fuzz(ctx, rng, ctx.n(48, 600), ctx.n(250, 400), stats, report)
+    phase("datagram fuzz")
 
     # 3. (b) multi-packet sessions: many grammar packets per connection, all epochs with keys, timers in between
     run_sessions(ctx, rng, ctx.n(60, 900), stats, report)
+    phase("sessions")
 
     # 3b. packet-number / ACK-of-ACK games by a key-holding peer
     run_ack_games(ctx, rng, ctx.n(120, 1600), stats, report)
+    phase("ack games")
 
     # 4. (c) hostile TLS
     run_tls(ctx, rng, stats, report)
 
     # 5. Retry packets with token sizes around what an Initial header can carry, followed by something that makes the
     #    client close (or by the application's own close()): the close branch of datagrams_to_send (finding R1)
+    phase("hostile tls")
     run_retry(ctx, rng, stats, report)
+    phase("retry worlds")
 
     stats["frames_tls_layer"] = dict(FR_TLS)
     extra = {"volume": {k: (dict(v) if isinstance(v, collections.Counter) else v) for k, v in stats.items()},
